@@ -68,9 +68,9 @@ func compareBackends(c *run.Ctx, o *ProgObs) {
 		name := bridge.Backend(i).String()
 		if b.CompErr != nil && b.CompErr.Stage == "codegen" {
 			// only the VM may refuse, and only beyond its encoding capacity
-			isVM := bridge.Backend(i) == bridge.VM || bridge.Backend(i) == bridge.VMCall
+			isVM := bridge.Backend(i) == bridge.VM || bridge.Backend(i) == bridge.VMCall || bridge.Backend(i) == bridge.Engine
 			ok := false
-			if isVM && b.CompErr.Msg == "overflow" && o.Case.E != nil {
+			if isVM && (b.CompErr.Msg == "overflow" || (bridge.Backend(i) == bridge.Engine && strings.Contains(b.CompErr.Msg, "overflow"))) && o.Case.E != nil {
 				nodes, maxArgs, maxMembers := staticSizes(o.Case.E)
 				ok = maxArgs > 255 || maxMembers > 65535 || nodes > 16000
 			}
